@@ -4,10 +4,12 @@
 pub trait IoStream: Sized {
     spec fn written(&self) -> Seq<u8>;
     spec fn delivered(&self) -> Seq<u8>;
+    /// ghost: the most recent read reported end of stream (Ok(0))
+    spec fn at_eof(&self) -> bool;
     /// write accepts some prefix of buf (possibly empty) or fails having accepted nothing
     fn write(&mut self, buf: &[u8]) -> (r: io::Result<usize>)
         ensures
-            final(self).delivered() == old(self).delivered(),
+            final(self).delivered() == old(self).delivered(), final(self).at_eof() == old(self).at_eof(),
             match r {
                 Ok(n) => n <= buf@.len() && final(self).written() == old(self).written() + buf@.subrange(0, n as int),
                 Err(_) => final(self).written() == old(self).written(),
@@ -17,6 +19,7 @@ pub trait IoStream: Sized {
         ensures
             final(self).written() == old(self).written(),
             final(buf)@.len() == old(buf)@.len(),
+            final(self).at_eof() == (r matches Ok(n) && n == 0 && old(buf)@.len() > 0),
             match r {
                 Ok(n) => n <= old(buf)@.len() && final(self).delivered() == old(self).delivered() + final(buf)@.subrange(0, n as int)
                     && final(buf)@.subrange(n as int, old(buf)@.len() as int) == old(buf)@.subrange(n as int, old(buf)@.len() as int),
